@@ -7,7 +7,7 @@
 From Coq Require Import List ZArith Bool.
 From Coq Require Import Permutation Sorted.
 From TskVerif Require Import Base.Common C14.Model C14.Spec C14.Basics C14.SubsetMain
-     C14.SubsetCorollaries C14.SubsetIdentity C14.UnionProofs C14.UnionRows C14.SortProofs C14.UnionFull C14.UnionRefs C14.InverseProofs C14.InverseRows C14.GuardProofs C14.SortRemap C14.WrapperProofs C14.InverseRefs C14.Examples.
+     C14.SubsetCorollaries C14.SubsetIdentity C14.UnionProofs C14.UnionRows C14.SortProofs C14.UnionFull C14.UnionRefs C14.InverseProofs C14.InverseRows C14.GuardProofs C14.SortRemap C14.WrapperProofs C14.InverseRefs C14.CanonInvariance C14.Examples.
 Import ListNotations.
 Open Scope Z_scope.
 
@@ -403,3 +403,15 @@ Theorem subset_union_inverse_individuals_partial :
       (forall irow, getz (t_individuals T) (n_ind r) = Ok irow ->
          exists irow', getz (t_individuals U) (n_ind r') = Ok irow' /\ ind_core irow' = ind_core irow).
 Proof. exact subset_union_inverse_individuals_lemma. Qed.
+
+(* ---- round 5: the canonical form does not depend on the row order ---- *)
+(* sorted edge table = a function of the set of edge rows (distinct keys), whatever order they
+   were written in — the edge part of "shared portions are compared on canonical forms".  For
+   individuals and tied mutations see CanonInvariance.ex_shared_check_order_invariant and the
+   `union` family (equivalent re-orderings of self / other), which tie it on every run. *)
+Theorem sort_edges_order_invariant : forall ns es1 es2 sites1 sites2 m1 m2 i1 i2 p1 p2,
+  Permutation es1 es2 ->
+  (forall x y, In x es1 -> In y es1 ->
+     edge_le (node_time ns) x y = true -> edge_le (node_time ns) y x = true -> x = y) ->
+  sort_edges (mkT ns es1 sites1 m1 i1 p1) = sort_edges (mkT ns es2 sites2 m2 i2 p2).
+Proof. exact CanonInvariance.sort_edges_order_invariant. Qed.
